@@ -1,17 +1,20 @@
 #!/bin/sh
-# usage: tools/benign_check.sh [ids...] [-- props...]
-# Applies each behaviour-preserving refactoring of /verif/benign to /repo, runs the quick checks (short
-# budget) and undoes it: every check must exit 0 (false-alarm regression). /repo must be clean.
-cd /verif
+# usage: tools/benign_check.sh [ids...]
+# Applies each behaviour-preserving refactoring of benign/ to the repository, runs every quick check with a
+# short budget and undoes it: every check must exit 0 (false-alarm regression). Honours REPO_DIR / VERIF_HOME
+# (isolated copy: scratch worktree + copy of /verif) like try_seeded.sh.
+repo=${REPO_DIR:-/repo}; home=${VERIF_HOME:-/verif}
+cd $home
 ids=${@:-$(ls benign)}
 for id in $ids; do
-  cd /repo && [ -z "$(git status --porcelain)" ] || { echo "/repo not clean"; exit 2; }
-  git apply /verif/benign/$id/patch.diff || { echo "$id: patch does not apply"; continue; }
-  cd /verif
+  cd $repo && [ -z "$(git status --porcelain)" ] || { echo "$repo not clean"; exit 2; }
+  git apply $home/benign/$id/patch.diff || { echo "$id: patch does not apply"; continue; }
+  cd $home
   for p in C03 C04 C05 C06 C07 C08 C10 C11 C13 C15 C16 C17 C18 C19 C20; do
-    out=$(./check $p --secs 15 2>&1); rc=$?
-    [ $rc -eq 0 ] || { echo "$id $p exit=$rc"; echo "$out" | grep -E "VIOLATION|UNSTABLE|HARNESS|class=" | head -4; }
+    if [ "$repo" != "/repo" ]; then out=$(VERIF_REPO=$repo ./check $p --secs ${SECS:-15} 2>&1); else out=$(./check $p --secs ${SECS:-15} 2>&1); fi
+    rc=$?
+    [ $rc -eq 0 ] || { echo "$id $p exit=$rc"; echo "$out" | grep -E "VIOLATION|UNSTABLE|HARNESS|class=" | head -4; echo "$out" | grep -A6 "class=" | head -12; }
   done
   echo "$id done"
-  git -C /repo checkout -- . && git -C /repo clean -fdq
+  git -C $repo checkout -- . && git -C $repo clean -fdq
 done
